@@ -239,6 +239,25 @@ func c12Resource(env *core.Env, tn string, seed uint64, rich bool) {
 		for _, sp := range sample {
 			c12Judge(env, "path", src, in, nil, nd.Msg, nd.UnderFresh(), declared, kind, sp)
 		}
+		// (2b) reached through children() of its parent element instead of by name: the same element, the same type
+		if nd.Parent != nil && nd.Parent.Msg != nil && !nd.Parent.UnderFresh() && (kind == "resource" || nd.ChoiceMsg != "") && nd.Parent.MD != nil && !gen.IsPrimitive(nd.Parent.MD) {
+			env.Cover("via-children")
+			peo := []fhirpath.EvaluateOption{evalopts.EnvVariable("p", nd.Parent.Msg)}
+			rc := c12Eval(env, "%p.children().where($this is "+declared.Name+")", nil, peo...)
+			found := false
+			if rc.IsValue() {
+				for _, it := range rc.Raw {
+					if m, ok := it.(proto.Message); ok && (m == nd.Msg || (nd.UnderFresh() && proto.Equal(m, nd.Msg))) {
+						found = true
+					}
+				}
+			}
+			if rc.IsPanic() {
+				env.Violatef(fx.PanicSig("C12", rc), "`%%p.children().where($this is %s)` => %s", declared.Name, rc.Short())
+			} else if !found {
+				env.Violatef("C12/is/"+kind+"/via-children/not-found", "%s: `%%p.children().where($this is %s)` on its parent element (%s) does not contain the element (declared type %s): %s", src, declared.Name, nd.Parent.Msg.ProtoReflect().Descriptor().Name(), declared, trunc(rc.Short(), 120))
+			}
+		}
 		// (3) the choice wrapper itself as %w: looked through
 		if nd.ChoiceMsg != "" && nd.Parent != nil && !nd.Parent.UnderFresh() && !nd.UnderFresh() {
 			if w := findWrapper(nd); w != nil {
@@ -323,6 +342,10 @@ func c12Sys(env *core.Env) {
 	vals := []struct{ src, typ string }{
 		{"1", "Integer"}, {"1.5", "Decimal"}, {"'a'", "String"}, {"true", "Boolean"}, {"@2020", "Date"}, {"@2020T", "DateTime"}, {"@T10", "Time"}, {"1 'mg'", "Quantity"},
 		{"(1 + 1)", "Integer"}, {"'a'.length()", "Integer"}, {"(1 = 1)", "Boolean"}, {"'1'.toDecimal()", "Decimal"}, {"today()", "Date"}, {"now()", "DateTime"}, {"timeOfDay()", "Time"}, {"%multi.first()", "Integer"}, {"Patient.name.count()", "Integer"},
+		// every conversion function yields its target type, whatever the spelling of the input
+		{"'2020-01'.toDateTime()", "DateTime"}, {"'2020'.toDateTime()", "DateTime"}, {"'2020-01-02'.toDateTime()", "DateTime"}, {"'2020-01-02T10:00:00Z'.toDateTime()", "DateTime"}, {"@2020-01.toDateTime()", "DateTime"}, {"'2020-01'.toDate()", "Date"}, {"@2020-01-02T10:00:00Z.toDate()", "Date"},
+		{"'10:00'.toTime()", "Time"}, {"'5 mg'.toQuantity()", "Quantity"}, {"5.toQuantity()", "Quantity"}, {"5.5.toQuantity('mg')", "Quantity"}, {"'1'.toInteger()", "Integer"}, {"true.toInteger()", "Integer"}, {"1.toDecimal()", "Decimal"}, {"true.toDecimal()", "Decimal"}, {"1.toString()", "String"}, {"@2020.toString()", "String"},
+		{"(1 'mg').toString()", "String"}, {"'true'.toBoolean()", "Boolean"}, {"1.toBoolean()", "Boolean"}, {"1.0.toBoolean()", "Boolean"}, {"(@2020-01-31 + 1 month)", "Date"}, {"(@2020T + 1 year)", "DateTime"}, {"(@T10 + 1 hour)", "Time"}, {"(1 'mg' + 1 'mg')", "Quantity"}, {"(1 / 2)", "Decimal"}, {"(4 div 2)", "Integer"}, {"(4.0 div 2)", "Integer"}, {"(5 mod 2)", "Integer"}, {"(5.5 mod 2)", "Decimal"}, {"('a' & 'b')", "String"}, {"(1 < 2)", "Boolean"},
 	}
 	for _, v := range vals {
 		env.Cover("system-value")
